@@ -376,6 +376,10 @@ class Statechart:
             if self.root:
                 raise StatechartError(
                     'Root already defined, {} must declare an existing parent state'.format(state))
+
+            # An history state must have a compound state as parent
+            if isinstance(state, HistoryStateMixin):
+                raise StatechartError('{} cannot be used as root state'.format(state))
         else:
             parent_state = self.state_for(parent)
 
